@@ -1775,6 +1775,20 @@ def _abstract_comprehension(ex, st, node, kind, g, it):
 
 def comprehension(ex, st, node, kind):
     if len(node.generators) != 1:
+        # nested generators: supported only in the fully abstract case - the outer iterable is an abstract
+        # collection, no conditions, and the element is one of the loop variables (no call, nothing can raise beyond
+        # iterating): the result is an abstract collection
+        elt = node.key if kind == "dict" else node.elt
+        names = {n.id for g in node.generators for n in ast.walk(g.target) if isinstance(n, ast.Name)}
+        if kind in ("list", "set", "gen") and not any(g.ifs for g in node.generators) and isinstance(elt, ast.Name) and elt.id in names:
+            for st0, it in ex.ev(node.generators[0].iter, st):
+                if isinstance(it, Exc):
+                    yield st0, it
+                elif isinstance(st0.deref(it), Opaque):
+                    yield st0, Opaque("PySet" if kind == "set" else "PyList")
+                else:
+                    raise U("nested comprehension")
+            return
         raise U("nested comprehension")
     g = node.generators[0]
     for st0, it in ex.ev(g.iter, st):
